@@ -360,6 +360,28 @@ func (w *World) genKind(t *rapid.T, kind string, p *Profile) Op {
 		op.Key = pick(t, "key", s.KeysIn(KOutstanding))
 		op.Node = pick(t, "node", s.LiveNodes())
 		op.Allow = pct(t, "allow", 30)
+		// half of the time: refuse a real gang ask on the node of a placeholder it could replace, so that the
+		// replacement has to happen on another node
+		type pair struct{ key, node string }
+		var pairs []pair
+		for _, k := range s.KeysIn(KOutstanding) {
+			sk := s.Keys[k]
+			if sk.Spec.Placeholder || sk.Spec.TaskGroup == "" {
+				continue
+			}
+			if a := w.Last.Apps[sk.App]; a != nil {
+				for _, al := range a.Allocs {
+					if al.Placeholder && al.TaskGroup == sk.Spec.TaskGroup && !al.Released {
+						pairs = append(pairs, pair{k, al.Node})
+					}
+				}
+			}
+		}
+		if len(pairs) > 0 && rapid.Bool().Draw(t, "pred-on-placeholder-node") {
+			sort.Slice(pairs, func(i, j int) bool { return pairs[i].key+pairs[i].node < pairs[j].key+pairs[j].node })
+			pr := pick(t, "pair", pairs)
+			op.Key, op.Node, op.Allow = pr.key, pr.node, false
+		}
 	}
 	return op
 }
